@@ -27,6 +27,7 @@ class Prog:
         self.order = [ident(d['name']) for d in node['defs']]
         self.codata = {ident(c['name']) for c in node['codata_types']}
         self.data = {ident(c['name']) for c in node['data_types']}
+        self.xtors = {ident(c['name']): {ident(x['name']) for x in c['xtors']} for c in list(node['codata_types']) + list(node['data_types'])}
 
     def cbn(self, ty):
         return ty.tag == 'Decl' and ident(ty.args[0]) in self.codata
@@ -51,6 +52,33 @@ def run_main(prog, args, ctx):
     if r.v[0] != 'int':
         raise Stuck("exit with a non-integer")
     return r.v[1]
+
+
+def value_fits(prog, b, v):
+    """does the run-time value v inhabit the declared chirality / type of the parameter binding b"""
+    ty = b['ty']
+    prd = b['chi'].tag == 'Prd'
+    if ty.tag == 'I64':
+        if prd:
+            return v[0] == 'int'
+        return v[0] in ('meta', 'mutilde')
+    names = prog.xtors.get(ident(ty.args[0]))
+    if names is None:
+        return True
+    if prd:
+        if v[0] == 'con':
+            return v[1] in names
+        if v[0] == 'cocase':
+            return {ident(c["xtor"]) for c in v[1]} <= names
+        if v[0] == 'pthunk':
+            t = term_ty(v[1])
+            return t.tag == 'Decl' and ident(t.args[0]) == ident(ty.args[0])
+        return False
+    if v[0] == 'case':
+        return {ident(c["xtor"]) for c in v[1]} <= names
+    if v[0] == 'dtor':
+        return v[1] in names
+    return v[0] in ('meta', 'mutilde')
 
 
 def lookup(env, k):
@@ -246,6 +274,10 @@ def stmt(prog, ctx, s, env):
             bs = d['context']['bindings']
             if len(bs) != len(vals):
                 raise Stuck(f"call of {s['name']['name']} with {len(vals)} arguments, {len(bs)} expected")
+            # well-typedness of the call (the precondition of every later stage)
+            for b, v in zip(bs, vals):
+                if not value_fits(prog, b, v):
+                    raise Stuck(f"ill-typed call of {s['name']['name']}: the value passed for {b['var']['name']} is not of its declared type")
             env2 = {ident(b['var']): v for b, v in zip(bs, vals)}
             return stmt(prog, ctx, d['body'], env2)
         return Bounce(lambda: args_values(prog, ctx, s['args'], env, go))
